@@ -170,10 +170,10 @@ Proof.
 Qed.
 
 (* Write stops short only while the engine waits for the wire *)
-Lemma write_loop_short fuel k : forall remaining (s : os) r s',
-  write_loop fuel k remaining s = (Ok r, s') -> (0 < fuel)%nat -> r <> 0 -> exists e, last_of s' k = Some e /\ wants e.
+Lemma write_loop_short fuel k : forall hs remaining (s : os) r s',
+  write_loop fuel hs k remaining s = (Ok r, s') -> r <> 0 -> exists e, last_of s' k = Some e /\ wants e.
 Proof.
-  induction fuel as [|f IH]; intros remaining s r s' H Hf Hr; [lia|]. cbn [write_loop] in H.
+  induction fuel as [|f IH]; intros hs remaining s r s' H Hr; cbn [write_loop] in H; [inversion H|].
   destruct (remaining =? 0) eqn:E0; [inversion H; subst; apply Z.eqb_eq in E0; lia|].
   apply bind_inv in H. destruct H as [[t [s1 [_ H]]]|[r0 [_ [_ Hx]]]]; [|exfalso; exact (recast_not_ok _ _ Hx)].
   destruct (negb _); [inversion H|].
@@ -182,11 +182,10 @@ Proof.
   - apply bind_inv in H. destruct H as [[[] [s3 [_ H]]]|[r0 [_ [_ Hx]]]]; [|exfalso; exact (recast_not_ok _ _ Hx)].
     apply bind_inv in H. destruct H as [[ok [s4 [Hh H]]]|[r0 [_ [_ Hx]]]]; [|exfalso; exact (recast_not_ok _ _ Hx)].
     destruct ok; cbn [negb] in H.
-    + destruct f; [inversion H|]. apply (IH _ _ _ _ H); [lia|exact Hr].
+    + destruct hs; [inversion H|]. apply (IH _ _ _ _ _ H Hr).
     + inversion H; subst. exact (handle_result_false _ _ _ _ Hh).
   - apply bind_inv in H. destruct H as [[[] [s3 [_ H]]]|[r0 [_ [_ Hx]]]]; [|exfalso; exact (recast_not_ok _ _ Hx)].
-    destruct (remaining <? res); [inversion H|].
-    destruct f; [inversion H|]. apply (IH _ _ _ _ H); [lia|exact Hr].
+    destruct (remaining <? res); [inversion H|]. apply (IH _ _ _ _ _ H Hr).
 Qed.
 
 Theorem send_some_keeps_the_interest : forall k size (s : os) n s',
@@ -197,8 +196,9 @@ Proof.
   unfold tls_write in H.
   apply bind_inv in H. destruct H as [[ok [s2 [Hl H]]]|[r0 [_ [_ Hx]]]]; [|exfalso; exact (recast_not_ok _ _ Hx)].
   destruct ok.
-  - apply bind_inv in H. destruct H as [[rem [s3 [Hw H]]]|[r0 [_ [_ Hx]]]]; [|exfalso; exact (recast_not_ok _ _ Hx)].
-    inversion H; subst. apply (write_loop_short _ _ _ _ _ _ Hw); [unfold STEPS_MAX; lia|lia].
+  - apply bind_inv in H. destruct H as [[x [s2' [_ H]]]|[r0 [_ [_ Hx]]]]; [|exfalso; exact (recast_not_ok _ _ Hx)].
+    apply bind_inv in H. destruct H as [[rem [s3 [Hw H]]]|[r0 [_ [_ Hx]]]]; [|exfalso; exact (recast_not_ok _ _ Hx)].
+    inversion H; subst. apply (write_loop_short _ _ _ _ _ _ _ Hw). lia.
   - inversion H; subst. exact (handle_last_error_false _ _ _ Hl).
 Qed.
 
